@@ -305,8 +305,11 @@ def run_check(prop, tier, seed, replay=None):
         # search the model and the implementation for a concrete failing input
         cand = [b['case'] for b in broken if 'case' in b] + [r['case'] for r in disagreements[:40]]
         extra = list(prop.gen_cases(random.Random(f'{pid}-{seed}-search'), n * (10 if tier == 'quick' else 3), tier))
-        for chunk_start in range(0, len(cand + extra), 2000):
-            chunk = (cand + extra)[chunk_start:chunk_start + 2000]
+        t_search = time.time()
+        for chunk_start in range(0, len(cand + extra), 500):
+            if time.time() - t_search > (90 if tier == 'quick' else 900):
+                break
+            chunk = (cand + extra)[chunk_start:chunk_start + 500]
             rs = evaluate_cases(prop, chunk)
             searched += len(chunk)
             vs = [r for r in rs if r['violation']]
